@@ -8,6 +8,10 @@ package load
 // violation, an admission is always accepted (when the behaviour assumed the other decision it
 // is abandoned - TLC generated its sibling as well); the in-flight count is compared after
 // every step and the smoothed count is checked against the capacity of the specification.
+// The smoothed count is judged as a function of the observed in-flight history (Shedder!P4): at
+// every completion, Pass or Fail, it must move towards the in-flight count the completion left
+// (strictly when they differ, never away, never past it), and it must stay below the
+// specification's bound SmLevel + 1 derived from the last CalmK completions.
 
 import (
 	"fmt"
@@ -21,6 +25,9 @@ import (
 	"github.com/gotid/god/lib/timex"
 )
 
+// development aid (VERIF_C09_DROP_RULE_ONLY=1): judge the smoothed count only through rejections
+var c09DropRuleOnly = kit.EnvInt("VERIF_C09_DROP_RULE_ONLY", 0) == 1
+
 type c09shed struct {
 	sh       *adaptiveShedder
 	promises []Promise
@@ -31,6 +38,36 @@ func (s *c09shed) avg() float64 {
 	s.sh.avgFlyingLock.Lock()
 	defer s.sh.avgFlyingLock.Unlock()
 	return s.sh.avgFlying
+}
+
+// complete lets one promise report and checks the smoothing rule for that completion.
+// It returns a non-empty key and message on a disagreement.
+func (s *c09shed) complete(p Promise, pass bool) (string, string) {
+	before := s.avg()
+	if pass {
+		p.Pass()
+	} else {
+		p.Fail()
+	}
+	left, after := float64(s.flying()), s.avg()
+	if c09DropRuleOnly {
+		return "", ""
+	}
+	kind := "fail"
+	if pass {
+		kind = "pass"
+	}
+	const eps = 1e-9
+	gap0, gap1 := before-left, after-left
+	switch {
+	case gap0 > 1e-6 && !(after < before && gap1 >= -eps),
+		gap0 < -1e-6 && !(after > before && gap1 <= eps),
+		gap0 >= -1e-6 && gap0 <= 1e-6 && (gap1 > 1e-6+eps || gap1 < -1e-6-eps):
+		return "C09:shed:smoothed-not-tracking:" + kind, fmt.Sprintf(
+			"completion (%s) left %v in flight: smoothed in-flight went %.6f -> %.6f; it must move towards the in-flight count (strictly, never away, never past it)",
+			kind, left, before, after)
+	}
+	return "", ""
 }
 
 func runC09ShedCase(c kit.Case, size, q, tickUs int, clock *kit.Clock, over *atomic.Bool, rep *kit.Reporter) (v kit.Verdict) {
@@ -70,6 +107,8 @@ func runC09ShedCase(c kit.Case, size, q, tickUs int, clock *kit.Clock, over *ato
 					return fail("C09:shed:drop-below-capacity", fmt.Sprintf("request rejected with %d in flight, capacity of the window is %d", flyingBefore, cap))
 				case avgBefore <= float64(cap):
 					return fail("C09:shed:drop-smoothed-below-capacity", fmt.Sprintf("request rejected with smoothed in-flight %.3f, capacity of the window is %d", avgBefore, cap))
+				case kit.Bool(st["calm"]):
+					return fail("C09:shed:drop-while-calm", fmt.Sprintf("request rejected (flying=%d, smoothed %.3f, cap=%d) although every one of the last completions left no more than the capacity in flight", flyingBefore, avgBefore, cap))
 				case !kit.Bool(st["mayDrop"]):
 					return fail("C09:shed:drop-not-permitted", fmt.Sprintf("request rejected (flying=%d avg=%.3f cap=%d), specification does not permit it", flyingBefore, avgBefore, cap))
 				}
@@ -80,7 +119,9 @@ func runC09ShedCase(c kit.Case, size, q, tickUs int, clock *kit.Clock, over *ato
 			if dropped != kit.Bool(st["drop"]) {
 				// the implementation took the other (permitted) decision: the sibling behaviour covers it
 				rep.Count("abandoned", 1)
-				s.finish()
+				if key, msg := s.finish(); key != "" {
+					return fail(key, msg)
+				}
 				if f := s.flying(); f != 0 {
 					return fail("C09:shed:flying-not-zero", fmt.Sprintf("in-flight count %d after every admitted request reported", f))
 				}
@@ -104,26 +145,35 @@ func runC09ShedCase(c kit.Case, size, q, tickUs int, clock *kit.Clock, over *ato
 			}
 			p := s.promises[idx]
 			s.promises = append(s.promises[:idx:idx], s.promises[idx+1:]...)
-			if op == "pass" {
-				p.Pass()
-			} else {
-				p.Fail()
+			if key, msg := s.complete(p, op == "pass"); key != "" {
+				return fail(key, msg)
 			}
+		case "quiet":
+			for j := 0; j < kit.Num(st["n"]); j++ {
+				p, err := s.sh.Allow()
+				if err != nil {
+					return fail("C09:shed:drop-while-cool", fmt.Sprintf("request %d of quiet traffic rejected (%v) although the CPU reading is below the threshold and no overload was observed during the last second", j+1, err))
+				}
+				if key, msg := s.complete(p, false); key != "" {
+					return fail(key, msg)
+				}
+			}
+			rep.Count("quiet_completions", kit.Num(st["n"]))
 		case "passn", "failn":
 			n := kit.Num(st["n"])
 			if n > len(s.promises) {
 				return kit.Verdict{Case: c.Index, Infra: true, Msg: "not enough promises"}
 			}
 			for _, p := range s.promises[:n] {
-				if op == "passn" {
-					p.Pass()
-				} else {
-					p.Fail()
+				if key, msg := s.complete(p, op == "passn"); key != "" {
+					return fail(key, msg)
 				}
 			}
 			s.promises = s.promises[n:]
 		case "finish":
-			s.finish()
+			if key, msg := s.finish(); key != "" {
+				return fail(key, msg)
+			}
 		default:
 			return kit.Verdict{Case: c.Index, Infra: true, Msg: "unknown op " + op}
 		}
@@ -134,15 +184,25 @@ func runC09ShedCase(c kit.Case, size, q, tickUs int, clock *kit.Clock, over *ato
 		if a, m := s.avg(), float64(kit.Num(st["maxSeen"])); a < -1e-9 || a > m+1e-9 {
 			return fail("C09:shed:smoothed-out-of-range", fmt.Sprintf("smoothed in-flight %.4f outside [0, %v] (largest count seen by a completion)", a, m))
 		}
+		if a, b := s.avg(), float64(kit.Num(st["smBound"])); st["smBound"] != nil && a > b && !c09DropRuleOnly {
+			return fail("C09:shed:smoothed-above-history", fmt.Sprintf("smoothed in-flight %.4f above %v = 1 + the highest count left by one of the last completions", a, b))
+		}
 	}
 	return v
 }
 
-func (s *c09shed) finish() {
-	for _, p := range s.promises {
-		p.Fail()
-	}
+func (s *c09shed) finish() (string, string) {
+	ps := s.promises
 	s.promises = nil
+	for i, p := range ps {
+		if key, msg := s.complete(p, false); key != "" {
+			for _, q := range ps[i+1:] {
+				q.Fail()
+			}
+			return key, msg
+		}
+	}
+	return "", ""
 }
 
 func TestVerifC09Shed(t *testing.T) {
